@@ -276,6 +276,8 @@ def run(ctx):
     templates = template_rule(ctx, repo)
     single_source_rule(ctx, repo)
     fields_rule(ctx, repo, templates)
+    from sa.rules import stalecopy
+    stalecopy.run(ctx, repo, 'C16.6-stale-copy', ('skoolhtml', 'skool2html', 'skoolparser'))
     from sa.rules import memo
     memo.run_for(ctx, repo, 'C16')
     return report.finish(ctx, EXPLANATION)
